@@ -878,6 +878,67 @@ def run_round4(run, r, unit, model, n):
             gi, gm = parse_grid(li), parse_grid(lm)
             if gi is None or gm is None or grids_differ(gi, gm, 0.0):
                 run.mismatch("ops:" + kind, cmd[:500], li[:300], lm[:300])
+    # ---- the overloads that take the current values of the variables (ABF, metadynamics, histogram call sites)
+    cl, cm = [], []
+    for k in range(max(8, n // 10)):
+        nd = r.choice([1, 2, 3])
+        cvs, zs = [], []
+        for d in range(nd):
+            w = r.choice([1.0, 0.5, 0.25, 2.0]); lo = V.dyadic(r, -4, 4); m = r.randint(1, 5)
+            cvs.append({"lower": lo, "upper": lo + m * w, "width": w, "period": 0.0, "n": m})
+            q = r.random()
+            zs.append(lo + r.randint(-2, m + 2) * w if q < 0.3 else (lo - r.randint(1, 15) * w / 8 if q < 0.45 else
+                      (lo + m * w + r.randint(0, 15) * w / 8 if q < 0.6 else lo + r.randint(0, 8 * m - 1) * w / 8 + w / 16)))
+        cl.append("SW " + sspec(1, cvs, cvs, []) + " CUR " + " ".join(V.hexf(z) for z in zs))
+        cm.append((cvs, zs))
+    rc1, oi, e1 = V.run_lines(unit, cl)
+    ml = []
+    for (cvs, zs), li in zip(cm, oi):
+        ml.append("OPB %d %s %s %s %s %s" % (len(cvs), " ".join(str(c["n"]) for c in cvs), " ".join(V.hexf(c["lower"]) for c in cvs),
+                                            " ".join(V.hexf(c["width"]) for c in cvs), " ".join("0" for _ in cvs), " ".join(V.hexf(z) for z in zs)))
+    rc2, om, e2 = V.run_lines(model, ml)
+    for cmd, (cvs, zs), li, lm in zip(cl, cm, oi, om + ["?"] * len(cl)):
+        run.count(cmd, True)
+        run.dist("ops:current-values")
+        w = li.split()
+        nd = len(cvs)
+        try:
+            sect = {}
+            key = None
+            for t in w:
+                if t in ("V", "B", "BB", "F", "I", "IB", "FLAT", "NX", "P"):
+                    key = t; sect[key] = []
+                else:
+                    sect[key].append(t)
+            vals = [float.fromhex(t) for t in sect["V"]]
+            b = [int(t) for t in sect["B"]]; bb = [int(t) for t in sect["BB"]]; fr_ = [float.fromhex(t) for t in sect["F"]]
+            flat = int(sect["FLAT"][0])
+        except (KeyError, ValueError, IndexError):
+            run.mismatch("ops:current-values", cmd[:300], li[:200], lm[:200]); continue
+        bad = None
+        if vals != zs:
+            bad = "the variables were set to %s and report %s" % (zs, vals)
+        exp_flat = 0
+        for d, c in enumerate(cvs):
+            q = (Fr(zs[d]) - Fr(c["lower"])) / Fr(c["width"])
+            fl = q.numerator // q.denominator
+            cl_ = min(max(fl, 0), c["n"] - 1)
+            exp_flat = exp_flat * c["n"] + cl_
+            if b[d] != fl or bb[d] != cl_ or Fr(fr_[d]) != q - fl:
+                bad = bad or "variable at %r on [%r, %r) width %r: current bin %d (bounded %d, fraction %r), expected %d (%d, %r)" % (
+                    zs[d], c["lower"], c["upper"], c["width"], b[d], bb[d], fr_[d], fl, cl_, float(q - fl))
+        if [int(t) for t in sect["I"]] != b or [int(t) for t in sect["IB"]] != bb or flat != exp_flat:
+            bad = bad or "get_colvars_index %s / _bound %s / current_bin_flat_bound %d disagree with the per-variable bins %s / %s (flat %d)" % (
+                sect["I"], sect["IB"], flat, b, bb, exp_flat)
+        if bad:
+            run.violation("ops:current-values", bad, {"kind": "unit", "case": cmd, "impl": li})
+        mw = lm.split()
+        try:
+            mb = [int(mw[3 * d]) for d in range(nd)]; mbb = [int(mw[3 * d + 1]) for d in range(nd)]; mf = [float.fromhex(mw[3 * d + 2]) for d in range(nd)]
+        except (ValueError, IndexError):
+            mb = None
+        if mb is None or mb != b or mbb != bb or mf != fr_:
+            run.mismatch("ops:current-values", cmd[:300], li[:200], lm[:200])
     # ---- add_extra_bin on real variables
     xl, xm = [], []
     for k in range(max(6, n // 10)):
